@@ -65,6 +65,7 @@ def registered(classes: list):
     reg = registry()
     saved = list(reg.registered_conventions)
     try:
+        list(reg.conventions)      # the registry has been used before: its cached list exists
         for c in classes:
             register_convention(c)
         yield
@@ -321,7 +322,8 @@ def do_copy(ds, kind: str):
 class History:
     """Executes operations on real xarray.Dataset / Convention objects and canonicalises identities."""
 
-    def __init__(self, datasets: list, table: dict):
+    def __init__(self, datasets: list, table: dict, reg_tokens: list = ()):
+        self.registered = [table[t] for t in reg_tokens]   # oracle: classes registered so far
         self.datasets = list(datasets)
         self.objs: list = []
         self.table = table
@@ -356,6 +358,23 @@ class History:
             self.violations.append(('convention-of-other-dataset', f'step {step}: dataset {d}.ems has .dataset of another object'))
         self.expected.setdefault(d, o)
 
+    def _expected_class(self, d: int):
+        """oracle: the class autodetection must choose for dataset d now (None: refuse;
+        'raises': some check_dataset raises)"""
+        order = []
+        for c in self.registered + entry_points():
+            if c not in order:
+                order.append(c)
+        try:
+            res = [(c, c.check_dataset(self.datasets[d])) for c in order]
+        except Exception:
+            return 'raises'
+        matches = [(c, v) for c, v in res if v is not None]
+        if not matches:
+            return None
+        best = max(v for _, v in matches)
+        return next(c for c, v in matches if v == best)
+
     def run_op(self, op: str, copy_kind: str = 'shallow') -> str:
         from emsarray.conventions import register_convention
         step = len(self.outs)
@@ -366,19 +385,27 @@ class History:
     def _run_op(self, op, copy_kind, step, register_convention) -> str:
         if op.startswith('r:'):
             register_convention(self.table[op[2:]])
+            self.registered.append(self.table[op[2:]])
             return 'ok'
         kind, body = op[0], op[1:]
         if kind == 'a':
             d = int(body)
             if d >= len(self.datasets):
                 return 'INVALID'
+            want = self._expected_class(d) if d not in self.expected else 'skip'
             try:
                 o = self.datasets[d].ems
             except Exception as e:  # noqa
                 if d in self.expected:
                     self.violations.append(('bound-not-stable', f'step {step}: dataset {d} has a convention attached, '
                                             f'but dataset.ems raised {type(e).__name__}'))
+                elif want not in ('skip', 'raises', None):
+                    self.violations.append(('matching-dataset-refused', f'step {step}: {cls_name(want)} matches dataset {d} '
+                                            f'but dataset.ems raised {type(e).__name__}'))
                 return 'E:noconv' if isinstance(e, RuntimeError) else 'E:check'
+            if want not in ('skip', 'raises') and type(o) is not want:
+                self.violations.append(('wrong-winner', f'step {step}: dataset {d}.ems is a {cls_name(type(o))}, the first '
+                                        f'class of maximal specificity is {None if want is None else cls_name(want)}'))
             self._saw_attached(d, o, step)
             return f'o{self._obj_ordinal(o)}'
         if kind in ('n', 'c'):
@@ -465,7 +492,7 @@ def execute_history(datasets_recipes: list, reg_tokens: list, syn: dict, ops: li
     table = R.class_table(syn)
     dss = [R.build(r) for r in datasets_recipes]
     flines = [R.fline(R.features(ds)) for ds in dss]
-    hist = History(dss, table)
+    hist = History(dss, table, reg_tokens)
     with registered([table[t] for t in reg_tokens]):
         for op, ck in zip(ops, copy_kinds):
             hist.run_op(op, ck)
@@ -707,7 +734,7 @@ def run(ctx) -> None:
         table = R.class_table(syn)
         dss = [R.build(r) for r in recipes]
         flines = [R.fline(R.features(ds)) for ds in dss]
-        hist = History(dss, table)
+        hist = History(dss, table, reg_tokens)
         classes = builtin_tokens + syn_tokens
         ops, kinds = [], []
         length = rng.randint(3, max_len)
